@@ -37,6 +37,7 @@ NEUTRAL_STREAM_METHODS = {"tell", "scoped_seek", "scoped_pod", "enter_member", "
 PURE_BUILTINS = {"len", "bool", "repr", "str", "id", "type", "isinstance", "int", "print"}
 SPEC_PATH = re.compile(r"@(\.\w+|\[\]|\[key\])*")
 SER_MODULE_SUFFIX = "serialization"
+REP_SEP = "\x1f"
 
 
 @dataclass
@@ -240,6 +241,11 @@ class Tracer:
                     return f"len({self.sym(node.args[0], st, fr)})"
                 if f.id in ("float", "int", "abs", "round", "bytes", "str", "tuple", "list") and node.args:
                     return f"{f.id}({self.sym(node.args[0], st, fr)})"
+            if isinstance(f, ast.Attribute) and f.attr == "read" and node.args and self.stream_of(f.value, st) is not None:
+                return f"<stream:{self.stream_of(f.value, st)}>.read({self.sym(node.args[0], st, fr)})"
+            if isinstance(f, ast.Attribute) and f.attr == "deserialize" and node.args and \
+                    self.stream_of(node.args[0], st) is not None:
+                return f"<stream:{self.stream_of(node.args[0], st)}>.read({self.sym(f.value, st, fr)})"
             streams = [self.stream_of(a, st) for a in list(node.args) + [k.value for k in node.keywords]]
             streams = [x for x in streams if x is not None]
             if streams:     # something taken from / done with a stream
@@ -252,6 +258,10 @@ class Tracer:
             return repr(node.value)
         if isinstance(node, ast.Starred):
             return self.sym(node.value, st, fr)
+        if isinstance(node, ast.BinOp) and isinstance(node.op, ast.Mult):
+            for seq, cnt in ((node.left, node.right), (node.right, node.left)):
+                if isinstance(seq, (ast.Tuple, ast.List)) and len(seq.elts) == 1 and not isinstance(seq.elts[0], ast.Starred):
+                    return f"<rep{REP_SEP}{self.sym(seq.elts[0], st, fr)}{REP_SEP}{self.sym(cnt, st, fr)}>"
         if isinstance(node, (ast.GeneratorExp, ast.ListComp, ast.SetComp)):
             tmp = self.comp_scope(node, st, fr)
             return "[" + self.sym(node.elt, tmp, fr) + "]"
@@ -418,7 +428,7 @@ class Tracer:
     def assume(self, test, pol: bool, st: St, fr: Frame, _depth=0):
         test = self.derive(test, st, fr)
         for e, p in atoms(test, pol):
-            st.pc[self._k(e, fr, st)] = (p, _names(e), self.sym(e, st, fr))
+            st.pc[self._k(e, fr, st)] = (p, _names(e), self.sym(e, st, fr), self.gate_of(e, st, fr))
             # unit propagation: not (A and B) with A known true gives not B;  (A or B) with A known false gives B
             if isinstance(e, ast.BoolOp) and _depth < 4 and \
                     (isinstance(e.op, ast.And) and not p or isinstance(e.op, ast.Or) and p):
@@ -452,8 +462,14 @@ class Tracer:
         return self.sym(node, st, fr)
 
     def gate_of(self, e, st: St, fr: Frame):
-        while isinstance(e, ast.UnaryOp) and isinstance(e.op, ast.Not):
-            e = e.operand
+        while True:
+            if isinstance(e, ast.UnaryOp) and isinstance(e.op, ast.Not):
+                e = e.operand
+            elif isinstance(e, ast.Call) and isinstance(e.func, ast.Name) and e.func.id == "bool" and len(e.args) == 1 \
+                    and not e.keywords and "bool" not in st.env:
+                e = e.args[0]                    # bool(x) asks for the truth of x
+            else:
+                break
         if isinstance(e, ast.Compare) and len(e.ops) == 1:
             op, l, r = e.ops[0], e.left, e.comparators[0]
             if isinstance(op, (ast.Is, ast.IsNot)) and isinstance(r, ast.Constant) and r.value is None:
@@ -466,6 +482,11 @@ class Tracer:
                 "is" if isinstance(op, (ast.Is, ast.IsNot)) else "?"
             return self.cexpr(l, st, fr), (k, self.cexpr(r, st, fr))
         return self.cexpr(e, st, fr), "truthy"
+
+    @staticmethod
+    def gates_at(st: St):
+        """(base, kind) of every atomic fact the path currently holds."""
+        return [v[3] for v in st.pc.values() if len(v) > 3 and v[3] is not None]
 
     def _collect_gates(self, test, st: St, fr: Frame):
         if isinstance(test, ast.BoolOp):
@@ -763,6 +784,9 @@ class Tracer:
                     return [base], None, base + "[]"
                 return [base], None, base + "[key]"
         base = self.sym(it, st, fr)
+        if base.startswith("<rep" + REP_SEP) and base.endswith(">"):
+            _, elem, cnt = base[:-1].split(REP_SEP, 2)          # (X,) * N : N times the same element
+            return [], cnt, elem
         return [base], None, base + "[]"
 
     @staticmethod
@@ -1104,7 +1128,11 @@ class Tracer:
                 if not self._flag(node, "peek", 2):
                     self._event(st, recv_stream, ("E", self.sym(node.args[0], st, fr)), node, fr)
             elif attr == "write_bytes":
-                self._event(st, recv_stream, ("B", None), node, fr)
+                a0 = node.args[0] if node.args else None
+                one = (isinstance(a0, (ast.Tuple, ast.List)) and len(a0.elts) == 1
+                       and not isinstance(a0.elts[0], ast.Starred)) or \
+                    (isinstance(a0, ast.Constant) and isinstance(a0.value, bytes) and len(a0.value) == 1)
+                self._event(st, recv_stream, ("B", "1" if one else None), node, fr)
             elif attr == "read_bytes":
                 if not self._flag(node, "peek", 1):
                     n = node.args[0] if node.args else next((k.value for k in node.keywords if k.arg == "num_bytes"), None)
